@@ -33,6 +33,9 @@ type Link struct {
 	rx, tx     atomic.Uint64
 	Params     transport.NegotiationParams
 	ClientCloses atomic.Int32
+	// stall (see stall.go): while set, the client's Write neither accepts nor fails until the link dies.
+	stall   atomic.Bool
+	stalled atomic.Int32
 }
 
 func NewLink(params transport.NegotiationParams) *Link {
@@ -88,6 +91,9 @@ func (c *Client) Write(b []byte) error {
 	}
 	if c.l.Mode() == Silent {
 		return nil // vanishes
+	}
+	if c.l.stall.Load() {
+		return c.l.stallWrite()
 	}
 	cp := append([]byte(nil), b...)
 	select {
